@@ -9,11 +9,11 @@ from drivers.c01 import tree_from_model
 import common, os, struct, zlib
 
 
-def make_zip(n):
-    """a minimal stored zip with n empty members m0..m{n-1}"""
+def make_zip(n, names=None):
+    """a minimal stored zip with n empty members m0..m{n-1} (or the given names)"""
     out = b''; cd = b''; off = 0
     for i in range(n):
-        name = ('m%d' % i).encode()
+        name = (names[i] if names else 'm%d' % i).encode()
         lh = struct.pack('<IHHHHHIIIHH', 0x04034b50, 20, 0, 0, 0, 0x21, 0, 0, 0, len(name), 0) + name
         cd += struct.pack('<IHHHHHHIIIHHHHHII', 0x02014b50, 20, 20, 0, 0, 0, 0x21, 0, 0, 0, len(name), 0, 0, 0, 0, 0, off) + name
         out += lh; off += len(lh)
@@ -24,9 +24,10 @@ def make_zip(n):
 def run(sess, configs=None, fam='walker'):
     prog = sess.prog
     quick = sess.tier == 'quick'
-    # (nodes, roots, ordered[, WHERE verdicts symbolic]); quick: every row matches; thorough: 4 nodes with a symbolic verdict per row,
+    # (nodes, roots, ordered[, WHERE verdicts symbolic]); quick: every row matches, plus 3 nodes with a symbolic verdict per row (a zip
+    # whose leading members are rejected); thorough: 4 nodes with a symbolic verdict per row,
     # 5 nodes without (5 nodes x verdicts x archives x limit does not finish: > 48 000 paths in 20 minutes)
-    configs = configs or ([(4, 1, False), (4, 1, True), (4, 2, True), (4, 2, False)] if quick else
+    configs = configs or ([(4, 1, False), (4, 1, True), (4, 2, True), (4, 2, False), (3, 1, False, True)] if quick else
                           [(4, 1, False, True), (4, 1, True, True), (4, 2, True, True), (4, 2, False, True), (5, 1, False, False), (5, 1, True, False)])
     configs = [c if len(c) == 4 else (c + (not quick and c[0] <= 4,)) for c in configs]
     sess.bounds[fam] = {'configurations (nodes, roots, ordered, symbolic WHERE verdicts)': [list(c) for c in configs], 'limit': '0..nodes+3', 'zip members': '0..2'}
@@ -131,7 +132,7 @@ def cli_replay(fs, m, limit, ordered, nroots):
         match = {}
         for (i, j), b in fs.matches.items():
             match[(i, j)] = z3.is_true(m.eval(b, model_completion=True))
-        members = {}
+        members = {}; mnames = {}
         want = []
         for i in range(nroots, M):
             if not usable[i]:
@@ -139,13 +140,15 @@ def cli_replay(fs, m, limit, ordered, nroots):
             iszip = z3.is_true(m.eval(fs.is_zip[i], model_completion=True)) and kind[i] == 0
             zok = z3.is_true(m.eval(fs.zip_ok[i], model_completion=True))
             nm = m.eval(fs.members[i], model_completion=True).as_long()
-            # WHERE verdict is encoded in the name: rows whose name contains 'y' match
-            tag = 'y' if match.get((i, None)) else 'n'
+            # WHERE verdict is encoded in the name: rows whose own name starts with 'q' match (`name =~ '(^|\] )q'`: the name of a
+            # member is `[archive] member`, so archive and member carry independent verdicts)
+            tag = 'q' if match.get((i, None)) else 'x'
             newp = path[par[i]] + '/%s%d%s' % (tag, i, '.zip' if iszip else '')
             ent = tree.pop(path[i])
             path[i] = newp
             if iszip:
-                ent = {'content': make_zip(nm) if zok else b'PK\x03\x04garbage'}
+                mnames[i] = [('q' if match.get((i, j)) else 'x') + str(j) for j in range(nm)]
+                ent = {'content': make_zip(nm, mnames[i]) if zok else b'PK\x03\x04garbage'}
             tree[newp] = ent
             if match.get((i, None)):
                 want.append(newp)
@@ -157,14 +160,12 @@ def cli_replay(fs, m, limit, ordered, nroots):
                 old = path[i]
                 path[i] = path[par[i]] + '/' + old.rsplit('/', 1)[1]
                 tree[path[i]] = tree.pop(old)
-        # members cannot carry independent verdicts on disk: use `name like %y%` on the *archive* name for all of them,
-        # so only witnesses whose members share the archive's verdict are replayable; otherwise count only
         argv = ['path', 'from']
         for r in range(nroots):
             if r:
                 argv.append(',')
             argv += ['R%d' % r, 'archives']
-        argv += ['where', 'path', 'like', '%y%']
+        argv += ['where', 'name', '=~', "'(^|\\] )q'"]
         if ordered:
             argv += ['order', 'by', 'name']
         if limit:
@@ -176,14 +177,15 @@ def cli_replay(fs, m, limit, ordered, nroots):
         for p, e in tree.items():
             if p in ('R0', 'R1'):
                 continue
-            if 'y' in p[3:]:
+            if p.rsplit('/', 1)[1].startswith('q'):
                 names.append(p.rsplit('/', 1)[1])
         for i, nm in members.items():
-            if 'y' in path[i][3:]:
-                names += ['m%d' % j for j in range(nm)]
+            names += [n_ for n_ in mnames[i] if n_.startswith('q')]
         total = len(names)
         exp = total if limit == 0 else min(limit, total)
         bad = len(got) != exp or r_['status'] != 0
+        if r_['status'] == 2 and 'parse' in r_['stderr']:
+            return False, 'the replay query was rejected by the parser (a defect of the replay, not a reproduction): %r' % r_['stderr'][:200]
         det = 'fselect %s on %r -> %d rows %r ; expected %d of %d (status %s, stderr %r)' % (
             ' '.join(argv), sorted(tree), len(got), got, exp, total, r_['status'], r_['stderr'][:200])
         if ordered and not bad:
